@@ -8,12 +8,12 @@ from common import sh2
 LEVEL = "proof"
 MANIFEST = {
     "technique": "Coq proof over a hand-written Gallina model of the box codec (header, container recursion, prefixed containers "
-                 "stsd/dref/sample entries, unknown boxes, 50 leaf box types, the box loop of a file) + differential correspondence "
+                 "stsd/dref/sample entries, unknown boxes, 52 leaf box types, the box loop of a file) + differential correspondence "
                  "(extracted OCaml vs Go) + failing-input search on all registered box types whose mutant failures are labelled "
                  "by the model's proved-complete reasons",
     "level_text": "PROOF for the modelled universe (coq/c01/C01Theorems.v): header round trip both ways; for each of the leaf "
                   "kinds ftyp styp free skip mdat mfhd tfhd tfdt trun mvhd tkhd sidx trex mdhd hdlr stts stsc stsz stco co64 stss sdtp "
-                  "ctts elst saiz saio sbgp prft tenc frma vmhd smhd nmhd sthd mfro mehd tfra pssh url avcC btrt pasp colr clap schm cslg senc(raw) emsg elng kind "
+                  "ctts elst saiz saio sbgp prft tenc frma vmhd smhd nmhd sthd mfro mehd tfra pssh url avcC btrt pasp colr clap schm cslg senc(raw) emsg elng kind hvcC subs "
                   "and the field prefixes of stsd, dref, VisualSampleEntry (avc1 avc3 hvc1 hev1 encv av01 vp08 vp09) and AudioSampleEntry "
                   "(mp4a enca ac-3 ec-3), everything the decoder accepts is reproduced from the decoded value plus the captured bytes "
                   "(C01_leaf_lossless_*, C01_leaf_table, C01_pre_table); C01_tree: every slice accepted by the model of DecodeBoxSR "
@@ -24,7 +24,7 @@ MANIFEST = {
                   "Go encoders' bytes ARE the input; C01_fixpoint (GENERAL, no hypothesis on the reserved bytes): for every slice "
                   "accepted completely with an exact tree t the Go encoders' bytes enc have the input's length = Size(), decode again "
                   "to norm_box t (= t up to the captured reserved bytes) and encode to enc again; C01_file_boxtree: the same for a "
-                  "file in box-tree mode; they rest on C01_header_local / C01_leaf_stable / C01_pre_stable: every decoder of the "
+                  "file in box-tree mode; they rest on C01_header_local / C01_leaf_stable: every decoder of the "
                   "dispatch tables is local (never looks behind the bytes it consumes) and print-then-parse holds for every leaf "
                   "kind (decoder applied to the encoder's bytes returns the same value, for all values the decoder can return); "
                   "every excluded shape / defect class is witnessed by a *_refuted theorem; complete real files (an init segment and a "
@@ -34,8 +34,8 @@ MANIFEST = {
                   "and mutations): masked byte equality, second decode, third encode on the real implementation.",
     "level_note": "Trusted: Coq kernel, extraction, OCaml/Go glue, the hand transcription of the Go text into C01Model.v (tied to "
                   "/repo by the correspondence run on every check), the scanner and generators of the harness. The model follows "
-                  "the SliceReader path; reader-path differences are counted, not modelled (C03). Not modelled: esds descriptors, hvcC, "
-                  "the per-sample structure of senc (kept raw, as DecodeSencSR does), sgpd, uuid, subs, wvtt, stpp, meta/ilst (explored only); the File-level acceptance checks of "
+                  "the SliceReader path; reader-path differences are counted, not modelled (C03). Not modelled: esds descriptors, "
+                  "the per-sample structure of senc (kept raw, as DecodeSencSR does), sgpd, uuid, wvtt, stpp, meta/ilst (explored only); the File-level acceptance checks of "
                   "DecodeFileSR (moov stts chain, mdat placement, senc parsing). c01_dontcare.json: entries with source=model are "
                   "regenerated from the model (rsv_dc marks which captured chunks are ISO reserved) on every run; source=hand entries are "
                   "hand-written. Search failures of mutants made of modelled types are labelled with the model's reason (a failing mutant "
@@ -143,7 +143,7 @@ REASON_SIG = {
     "compressorname-padding-zeroed": ("VisualSampleEntry", "model:compressorname-padding-zeroed"),
     "depth-rewritten-0x0018": ("VisualSampleEntry", "model:depth-rewritten-0x0018"),
     "samplerate-fraction-dropped": ("AudioSampleEntry", "model:samplerate-fraction-dropped"),
-    "bytes-after-record-dropped": ("avcC", "model:bytes-after-record-dropped"),
+    "bytes-after-record-dropped": (None, "model:bytes-after-record-dropped"),      # site: avcC or hvcC, from the reason
     "senc-sample-count-zero-data-dropped": ("senc", "model:sample-count-zero-data-dropped-size-kept"),
     "elng-unterminated-language-rewritten": ("elng", "model:unterminated-language-rewritten"),
     "trun-data-offset-zero": ("trun", "accepted-but-encode-error"),
@@ -176,6 +176,7 @@ def reclassify(ctx, model, fails):
             mine = [x for x in rs if x[0] == f[1]] or rs
             if mine:
                 f[1], f[2] = REASON_SIG.get(mine[0][1], (mine[0][0], "model:" + mine[0][1]))
+                f[1] = f[1] or mine[0][0]
                 explained += 1
             else:
                 f[2] = ("reader-path-only:" if reader else "unexplained-by-model:") + f[2].split(":", 1)[1]
